@@ -69,6 +69,62 @@ def lattice_violations(m, tol=1e-12):
     return out, n
 
 
+# ------------------------------------------------------------------------------- write/expand stamps
+class StampMonitor:
+    """Logical clock on lattice entries (monitor-side, keyed by id()): when an entry was last written (created or replaced in
+    place) and when it was last expanded (next() called on it).  Used by C02 to classify a stale child: a state whose
+    predecessor on the path was replaced AFTER the state itself was written."""
+
+    def __init__(self):
+        self.clock = 0
+        self.w = {}
+        self.x = {}
+        self.installed = False
+
+    def reset(self):
+        self.w.clear()
+        self.x.clear()
+
+    def install(self):
+        mon = self
+        self.orig_next = B.BaseMatching.next
+        self.orig_first = B.BaseMatching.first.__func__
+        self.orig_upd = B.BaseMatching._update_inner
+
+        def nxt(self_e, *a, **kw):
+            mon.clock += 1
+            mon.x[id(self_e)] = mon.clock
+            r = mon.orig_next(self_e, *a, **kw)
+            if r is not None:
+                mon.clock += 1
+                mon.w[id(r)] = mon.clock
+            return r
+
+        def first(cls, *a, **kw):
+            r = mon.orig_first(cls, *a, **kw)
+            if r is not None:
+                mon.clock += 1
+                mon.w[id(r)] = mon.clock
+            return r
+
+        def upd(self_e, m_other):
+            mon.clock += 1
+            mon.w[id(self_e)] = mon.clock
+            return mon.orig_upd(self_e, m_other)
+
+        B.BaseMatching.next = nxt
+        B.BaseMatching.first = classmethod(first)
+        B.BaseMatching._update_inner = upd
+        self.installed = True
+
+    def uninstall(self):
+        if self.installed:
+            B.BaseMatching.next = self.orig_next
+            B.BaseMatching.first = classmethod(self.orig_first)
+            B.BaseMatching._update_inner = self.orig_upd
+            self.installed = False
+
+
 # ---------------------------------------------------------------------- non-emitting filter invariant
 def ne_filter_violations(m, any_round=False):
     """After a FRESH match (round 0; or, with any_round=True, after extension-only histories WITHOUT width pruning, where
